@@ -128,6 +128,8 @@ pub(crate) fn remove_or_compress_too_old_logfiles_impl(
             .cloned()
             .collect();
         for file in redundant {
+            #[cfg(flexi_logger_verif)]
+            crate::verif_hooks::fs_point(crate::verif_hooks::FsOp::Remove, &file)?;
             std::fs::remove_file(&file)?;
             files.retain(|f| *f != file);
         }
